@@ -211,6 +211,18 @@ def run_unit(unit):
                 acc.count("states")
                 acc.shape(("convert", label, cont, fin, fout))
                 check_convert(acc, argv, fin, buf, ns.CommandResponseStream, None, fout, {"harness": "cli", "argv": argv[:-1], "file": buf.hex(), "stream": label})
+            # several input files: decoded as the concatenation of their contents
+            if cont in ("binary", "hex", "swtpm-log") and len(msgs) >= 2:
+                parts = [render(cont, msgs[:1]), render(cont, msgs[1:])]
+                if len(msgs) >= 4:
+                    parts = [render(cont, msgs[:1]), render(cont, msgs[1:3]), render(cont, msgs[3:])]
+                paths = [tmp.write("part%d.dat" % i, p) for i, p in enumerate(parts)]
+                whole = b"".join(parts)
+                for fout in ("pretty", "binary"):
+                    argv = ["convert", "--in", cont, "--out", fout] + paths
+                    acc.count("states")
+                    acc.shape(("convert-multi", label, cont, fout, len(paths)))
+                    check_convert(acc, argv, cont, whole, ns.CommandResponseStream, None, fout, {"harness": "cli", "argv": argv[: -len(paths)], "files": [p.hex() for p in parts], "file": whole.hex(), "stream": label})
             # defaults: no --in (auto), no --out (pretty)
             if cont != "swtpm-log":
                 acc.count("states")
@@ -424,8 +436,10 @@ def replay(case):
         return [(v["fp"], v["case"], v["detail"]) for v in acc.viol.values()]
     with Tmp() as tmp:
         buf = bytes.fromhex(case["file"])
-        path = tmp.write("in.dat", buf)
-        full = argv + [path]
+        if case.get("files"):
+            full = argv + [tmp.write("part%d.dat" % i, bytes.fromhex(h)) for i, h in enumerate(case["files"])]
+        else:
+            full = argv + [tmp.write("in.dat", buf)]
         if argv[0] in ("convert", "co"):
             opt = lambda o, dflt=None: argv[argv.index(o) + 1] if o in argv else dflt  # noqa: E731
             tname, cmd = opt("--type"), opt("--command")
